@@ -79,6 +79,9 @@ func c15CheckCountersigned(ctx *vfCtx, api, version string, in jv, out []byte, s
 				continue
 			}
 			for _, sg := range ent.Val.O {
+				if ent.Key == signer && sg.Key == keyID {
+					continue // the slot the local server's own signature goes into
+				}
 				got, ok := c02SigOfTree(ot, ent.Key, sg.Key)
 				if !ok || sg.Val.K != 's' || got != sg.Val.S {
 					ctx.Fail("C15/"+api+"/original-signature-dropped", "signature %s/%s of the input event is missing from the returned event", ent.Key, sg.Key)
@@ -287,6 +290,12 @@ func c15SendJoinGen(t *rapid.T) c15SendJoinCase {
 	ev, c.Keys = c15ApplySigFault(c.Version, ev, c.Origin, sigFault)
 	if c15Domain(sender) != c.Origin && senderAlsoSigns {
 		ev = c15Sign(c.Version, ev, c15Domain(sender))
+	}
+	if c.Origin != c15Local && c15Domain(sender) != c15Local && rapid.IntRange(0, 5).Draw(t, "localEntry") == 0 {
+		// the join already lists a value under the local server's name and key ID (not its signature)
+		kind := rapid.SampledFrom([]string{"junk", "stale", "other-key"}).Draw(t, "localEntryKind")
+		ev = c15WithLocalEntry(c.Version, ev, c15Local, kind)
+		c.Faults = append(c.Faults, "local-signature-entry-present/"+kind)
 	}
 	if rapid.IntRange(0, 3).Draw(t, "unsigned") == 0 {
 		ev = ev.with("unsigned", jobj("age", jnum(5)))
